@@ -32,6 +32,7 @@ type C20 struct {
 	SeqN int    `json:"seq_len,omitempty"`
 	Leg  string `json:"leg,omitempty"`
 	Reps int    `json:"reps,omitempty"` // mode R: repetitions of the op lists
+	Long int    `json:"long,omitempty"` // one long seeded sequential history of this many operations
 }
 
 func genC20(seed uint64, run int, tier string) Scenario {
@@ -52,6 +53,15 @@ func genC20(seed uint64, run int, tier string) Scenario {
 			sc.SeqN = 7
 		}
 		sc.Class = "queue/sequential"
+
+		return sc
+	} else if run == 1 || run == 2 {
+		// a long life of one queue: thousands of chunks pass through it
+		sc.Long = between(r, 12000, 18000)
+		if base == "thorough" {
+			sc.Long = between(r, 40000, 120000)
+		}
+		sc.Class = "queue/long"
 
 		return sc
 	}
@@ -128,6 +138,11 @@ func runC20(env *Env, s Scenario) {
 	sc := s.(*C20)
 	if sc.Seq {
 		runC20Seq(env, sc)
+
+		return
+	}
+	if sc.Long > 0 {
+		runC20Long(env, sc)
 
 		return
 	}
@@ -241,6 +256,8 @@ func runC20(env *Env, s Scenario) {
 
 			return
 		}
+		// the controller has stopped: the oracle's own queue calls below must not park at the hooks
+		env.K.Free = true
 	}
 	if panicked != "" {
 		env.Fail("panic", "", "queue operation panicked: %s", panicked)
@@ -289,6 +306,77 @@ func firstBytes(b []byte, n int) []byte {
 	}
 
 	return b
+}
+
+// runC20Long drives one queue through a long seeded sequential history against the list model.
+func runC20Long(env *Env, sc *C20) {
+	r := kernel.Stream(sc.SchedSeed, "long")
+	env.K.Free = true // one caller, no schedule: the hooks must not park
+	q := util.NewQueue()
+	var model []string
+	id, deqs := 0, 0
+	last := ""
+	env.Res.Nontrivial = true
+	env.Res.Shape = fmt.Sprintf("long n=%d", sc.Long)
+	env.Res.SchedDigest = fmt.Sprintf("L%016x", sc.SchedSeed)
+	defer func() {
+		if p := recover(); p != nil {
+			env.Fail("panic", "", "queue operation panicked after %d operations (%d chunks taken): %v", id, deqs, p)
+		}
+	}()
+	for i := 0; i < sc.Long; i++ {
+		switch x := r.IntN(100); {
+		case x < 46:
+			id++
+			v := fmt.Sprintf("<%d>", id)
+			q.Enqueue([]byte(v))
+			model = append(model, v)
+		case x < 86:
+			b := q.Dequeue()
+			want := ""
+			if len(model) > 0 {
+				want = model[0]
+				model = model[1:]
+				deqs++
+			}
+			if string(b) != want || (want == "" && b != nil) {
+				env.Fail("not-lossless-fifo", "", "operation %d (after %d chunks taken): dequeue returned %q, reference %q", i, deqs, b, want)
+
+				return
+			}
+			if b != nil {
+				last = string(b)
+			}
+		case x < 88:
+			b := q.DequeueAll()
+			want := strings.Join(model, "")
+			deqs += len(model)
+			model = nil
+			if string(b) != want {
+				env.Fail("not-lossless-fifo", "", "operation %d: dequeue-all returned %d bytes, reference %d", i, len(b), len(want))
+
+				return
+			}
+		case x < 93:
+			if last != "" {
+				q.Requeue([]byte(last))
+				model = append([]string{last}, model...)
+				last = ""
+			}
+		default:
+			if d := q.GetDepth(); d != len(model) {
+				env.Fail("depth-mismatch", "", "operation %d (after %d chunks taken): depth %d, %d chunks held", i, deqs, d, len(model))
+
+				return
+			}
+		}
+	}
+	if deqs > 4096 {
+		env.Probe("more-than-4096-chunks-through-one-queue")
+	}
+	if string(q.DequeueAll()) != strings.Join(model, "") {
+		env.Fail("not-lossless-fifo", "", "final drain differs from the reference")
+	}
 }
 
 // runC20Seq runs every sequential history up to length n against the list model.
@@ -396,7 +484,7 @@ func init() {
 			ThoroughS:   420,
 			Legs: []Leg{
 				{Name: "D", QuickRuns: 20000, Share: 0.75},
-				{Name: "R", Race: true, QuickRuns: 320, Share: 0.25, Procs: 4},
+				{Name: "R", Race: true, QuickRuns: 320, Share: 0.25, Procs: 4, Closed: true},
 			},
 		},
 		Gen: genC20,
